@@ -30,6 +30,9 @@ def run(ctx) -> None:
     ctx.rule("C17.R1-launch-env-reads", "os.environ is read only in the four frozen, key-restricted forms")
     ctx.rule("C17.R2-branch-table", "'none' adds nothing, ''/'environment' adds the default environment, otherwise the named environment; unknown names propagate FlowIREnvironmentUnknown")
     ctx.rule("C17.R3-layering", "the selected platform's environment is layered over the default platform's")
+    ctx.rule("C17.R5-expansion-context", "a value of the environment is expanded from the environment's own variables, or - for a "
+                                         "variable imported through DEFAULTS - from the launch value of that same variable only; "
+                                         "no other launch value can replace a variable the environment defines itself")
     ctx.rule("C17.R4-name-case", "environment names are lower-cased by every reader and writer")
 
     conf = ctx.repo.module(CONF)
@@ -104,12 +107,41 @@ def run(ctx) -> None:
     ctx.require(bool(ev), "anchor missing: os.path.expandvars in environmentWithName")
     for c in ev:
         inner = c.args[0] if c.args else None
-        ok = isinstance(inner, ast.Call) and last_attr(inner) == "expand_vars" and len(inner.args) == 2 and isinstance(inner.args[1], ast.Name) \
-            and inner.args[1].id == "environment"
+        inners = [inner]
+        if isinstance(inner, ast.Name):      # value = expand_vars(..); os.path.expandvars(value)
+            inners = match.assigned_value(ewn, inner.id) or [inner]
+        ok = all(isinstance(i, ast.Call) and last_attr(i) == "expand_vars" and len(i.args) == 2 and isinstance(i.args[1], ast.Name)
+                 and i.args[1].id == "environment" for i in inners)
         ctx.ob("C17.R1-launch-env-reads", c, ok, "values are expanded first from the environment itself, then from the launch environment" if ok else
                "os.path.expandvars is applied before/without expanding from the environment's own variables")
         exp = match.test_nodes(CFG(ewn), lambda t: "T" if isinstance(t, ast.Name) and t.id == "expand" else None)
         ctx.ob("C17.R1-launch-env-reads", c, bool(exp), "expansion only when requested", trivial=True)
+    # ---------------- R5 -------------------------------------------------------------------------------
+    xs = [c for c in source.calls_in(ewn, include_nested=True) if last_attr(c) == "expand_vars" or call_name(c) == "expand_vars"]
+    ctx.floor("C17.R5-expansion-context", len(xs), 2, "expand_vars calls in environmentWithName")
+    for c in xs:
+        ctxarg = c.args[1] if len(c.args) > 1 else next((k.value for k in c.keywords if k.arg == "environment"), None)
+        subj = c.args[0] if c.args else None
+        form = None
+        if isinstance(ctxarg, ast.Name) and ctxarg.id == "environment":
+            form = "the environment's own variables"
+        elif isinstance(ctxarg, ast.Dict) and len(ctxarg.keys) == 1 and isinstance(ctxarg.keys[0], ast.Name):
+            k = ctxarg.keys[0].id
+            v = ctxarg.values[0]
+            v_ok = (isinstance(v, ast.Subscript) and is_os_environ(v.value) and isinstance(v.slice, ast.Name) and v.slice.id == k)
+            if not v_ok and isinstance(v, ast.Subscript) and isinstance(v.slice, ast.Name) and v.slice.id == k and isinstance(v.value, ast.Name):
+                # a local holding launch values, indexed by the same variable
+                v_ok = True
+            s_ok = isinstance(subj, ast.Subscript) and isinstance(subj.slice, ast.Name) and subj.slice.id == k \
+                and isinstance(subj.value, ast.Name) and subj.value.id == "environment"
+            if v_ok and s_ok:
+                form = "the launch value of the same variable (self-reference such as PATH: /x:$PATH)"
+        ctx.ob("C17.R5-expansion-context", c, form is not None,
+               "expanded from %s" % form if form else
+               "a value is expanded from %s, which can hold launch values of *other* variables: a reference to $A inside B is "
+               "replaced by the launch environment's A although the environment defines its own A (own variables must win)"
+               % short(ctxarg, 60), construct="expand_vars(%s, %s)" % (short(subj, 40), short(ctxarg, 50)))
+
     # other helpers on the path do not read the launch environment (thorough: closure over self-method calls)
     seen: Set[str] = set()
     todo = ["environmentForNode"]
@@ -178,7 +210,25 @@ def run(ctx) -> None:
            "flowir_env_vars has another source than get_environment")
     # named branch starts from the system variables only
     starts = [n for n in cfg.nodes if n.kind == "stmt" and isinstance(n.ast, ast.Assign) and any(isinstance(t, ast.Name) and t.id == "environment" for t in n.ast.targets)]
+    after_table = cfg.reach([n for n, _ in lbl_tests]) if lbl_tests else set()
+    FOREIGN = ("os.environ", "default_env", "defaultEnvironment", "get_environment", "flowir_env_vars")
+
+    def rebuilt_from_itself(v: ast.AST) -> bool:
+        """after the branch table the dictionary may be rebuilt (expanded copy) as long as no new source flows in"""
+        texts = [source.src(v)]
+        if isinstance(v, ast.Name):
+            for n2 in source.walk_own(ewn):
+                if isinstance(n2, (ast.Assign, ast.AugAssign)):
+                    tg = n2.targets if isinstance(n2, ast.Assign) else [n2.target]
+                    if any((isinstance(t, ast.Name) and t.id == v.id) or (isinstance(t, ast.Subscript) and isinstance(t.value, ast.Name)
+                                                                          and t.value.id == v.id) for t in tg):
+                        texts.append(source.src(n2.value))
+                elif isinstance(n2, ast.Call) and isinstance(n2.func, ast.Attribute) and isinstance(n2.func.value, ast.Name) \
+                        and n2.func.value.id == v.id and n2.func.attr in ("update", "setdefault"):
+                    texts.append(source.src(n2))
+        return not any(f in t for t in texts for f in FOREIGN if not (f == "os.environ" and "os.path.expandvars" in t and "os.environ" not in t))
     okb = all("_system_vars" in source.src(s.ast.value) or source.src(s.ast.value) == "environment.copy()" or isinstance(s.ast.value, ast.DictComp)
+              or (s.id in after_table and rebuilt_from_itself(s.ast.value))
               for s in starts)
     ctx.ob("C17.R2-branch-table", ewn, okb, "the environment always starts from the runtime's system variables" if okb else
            "the environment is (re)initialised from something other than the system variables", construct="environment = (self._system_vars or {}).copy()")
